@@ -365,6 +365,15 @@ def run(ctx, groups=None, n=None):
         return
     groups = groups or PROP_GROUPS.get(ctx.prop, [])
     n = n or ctx.n(120, 1500)
+    from .common import CheckError
     b = Batch(ctx)
     for g in groups:
-        RUNNERS[g](ctx, b, n)
+        try:
+            RUNNERS[g](ctx, b, n)
+        except CheckError:
+            raise
+        except Exception as e:  # noqa
+            # a translated function can no longer be found / called as the harness knows it: the tie is broken, the check is not
+            ctx.report.disagreements.append({'op': 'pyeval:%s' % g, 'case': 'the real function could not be exercised',
+                                             'real': repr(e)[:300], 'model': None})
+            b.ops, b.meta = [], []
